@@ -87,9 +87,11 @@ def uniqLoop (cfg : Cfg) : Nat → EL → Nat → Option EL
         | (none, a', b') => uniqLoop cfg fuel ((e.setAt (i - 1) a').setAt i b') (i + 1)
     | _, _ => some e
 
-/-- `hostlist_uniq` -/
+/-- `hostlist_uniq`.  FINDING F16-UNIQ-NORESET: as found, a list of at most one range record is left
+    alone by an early return — iterators included, which every other call resets.  Repaired: no
+    early return (sorting and joining one record does nothing; the iterators are reset). -/
 def uniqE (cfg : Cfg) (e : EL) : Option EL :=
-  if e.rs.length ≤ 1 then some e
+  if e.rs.length ≤ 1 ∧ cfg.fixUniqReset = false then some e
   else
     match uniqLoop cfg (2 * e.rs.length + 2) { e with rs := sortRanges cfg e.rs } 1 with
     | none => none
